@@ -65,6 +65,9 @@ pub struct Rich {
     pub stray: Vec<(usize, Pubkey, Pubkey)>,
     /// a pool with non-zero control flags (positions must be non-transferable)
     pub p_flagged: usize,
+    /// a pool over two Token-2022 mints with different transfer-hook programs, and the owner's position in it
+    pub p_hook: usize,
+    pub pos_hook: usize,
 }
 
 fn dynamic(spec: &RichSpec, n: u8) -> bool {
@@ -201,8 +204,43 @@ impl Rich {
         for u in [owner, attacker, trader] {
             w.user_token(u, &nt_mint, 1 << 58);
         }
+        // a pool over two Token-2022 mints with DIFFERENT transfer-hook programs (badge-gated), a position with liquidity, a reward
+        // paid in the first of them
+        let hx = w.create_t22_mint_hooked(None, Some(crate::rt::hook_program(1)));
+        let hy = w.create_t22_mint_hooked(Some((100, 5000)), Some(crate::rt::hook_program(2)));
+        for m in [&hx, &hy] {
+            let ix = w.ix_init_token_badge(cfg, &m.key);
+            w.must("token badge (hook mint)", &ix);
+            for u in [owner, attacker, trader] {
+                w.user_token(u, m, 1 << 58);
+            }
+        }
+        let p_hook = w.init_pool(cfg, &hx, &hy, ts, price).expect("hook pool");
+        for k in -1i32..=1 {
+            let ix = w.ix_init_tick_array(p_hook, base + k * n, k == 0 && dynamic(spec, 7));
+            w.must("tick array (hook pool)", &ix);
+        }
+        let pos_hook = open_liq(&mut w, p_hook, PosKind::TokenExt, lo, hi, liq);
+        {
+            let idx = w.init_reward(p_hook, &hx, true).expect("hook reward");
+            let vault = w.pools[p_hook].rewards[idx].vault;
+            w.mint_to(&hx, &vault, 1 << 50);
+            let mut ix = w.ix_set_reward_emissions(p_hook, idx as u8, 1u128 << 70, true);
+            ix.accounts[1].is_signer = true;
+            w.must("emissions (hook pool)", &ix);
+        }
         // trades so that fees / rewards / protocol fees are owed
         w.advance_clock(1000);
+        {
+            let amt: u64 = (1u64 << spec.swap_bits.clamp(8, 40)).min((liq >> 11) as u64).max(16);
+            for a_to_b in [true, false] {
+                let sp = SwapParams { amount: amt, threshold: 0, sqrt_price_limit: 0, exact_in: true, a_to_b };
+                let ix = w.ix_swap_v2(p_hook, trader, &sp);
+                let _ = w.exec(&ix);
+            }
+            let ix = w.ix_update_fees(pos_hook);
+            w.must("update fees (hook pool)", &ix);
+        }
         // small enough to keep the price inside the positions' range (the catalog's baseline calls need liquidity in range)
         let amt: u64 = (1u64 << spec.swap_bits.clamp(8, 40)).min((liq >> 11) as u64).max(16);
         for p in [p0, p1, pa] {
@@ -275,6 +313,8 @@ impl Rich {
             }
         }
         Rich {
+            p_hook,
+            pos_hook,
             p_flagged,
             stray,
             sibling,
